@@ -86,3 +86,116 @@ Example C10_divisions_in_table :
   forallb (fun d => forallb (fun k => Qeq_bool (snap_frac tbl (inject_Z (Z.of_nat k) / inject_Z d)) (inject_Z (Z.of_nat k) / inject_Z d))
                             (seq 0 (Z.to_nat d + 1))) Tables.default_divisions = true.
 Proof. vm_compute. reflexivity. Qed.
+
+(* ======================================================================================================================
+   The remaining halves of C10 (Proofs/TimingProofs2.v; boolean domains and spec functions in Timing/Domain2.v, which
+   the correspondence runner evaluates on every generated case).
+   ====================================================================================================================== *)
+From Coq Require Import Sorting.Permutation.
+From RV Require Import Timing.Domain2 Proofs.TimingProofs2.
+
+(* TimingMap.snaps returns its results IN THE ORDER OF THE QUERIES (any multiset of millisecond queries, any order,
+   duplicates): sorting, the reverse sweep with the persistent negative cursor and the un-permutation are the per-query
+   lookup "last change at or before o, then Snap.from_offset" *)
+Theorem C10_snaps_in_query_order : forall tbl bcos os bcss,
+  bco_to_bcs tbl (sort_by bco_lt bcos) = Some bcss ->
+  let full := rev (combine (sort_by bco_lt bcos) bcss) in
+  (forall o, In o os -> exists v, lookup_snap tbl full o = Some v) ->
+  exists res, tm_snaps tbl bcos os = Some res /\ Forall2 (fun o r => lookup_snap tbl full o = Some r) os res.
+Proof. exact tm_snaps_lookup. Qed.
+
+(* ms -> position -> ms.  For every tempo script in the on-grid domain of C10_offsets_on_grid (dom_snapsb = that domain
+   + all queries at or after the first change), any initial offset, any millisecond queries in any order with duplicates:
+   TimingMap.snaps succeeds and returns, in query order, positions normalised under the metronome of the change active
+   at the query time (active_at_time: last change whose integrated time is <= o); the time of each returned position
+   (integration, time_of) is within beat_length/192 of the query at the active tempo and EQUAL to it when the query
+   lies on the snap grid relative to the active change ((o - t_active)/beat_length has its fractional part in the table);
+   converting these positions back with TimingMap.offsets succeeds and returns those times. *)
+Theorem C10_ms_roundtrip : forall init l os, dom_snapsb tbl init l os = true ->
+  exists bcos ss ts, from_bcs init l = Some bcos
+    /\ tm_snaps tbl bcos os = Some ss /\ tm_offsets tbl bcos ss = Some ts
+    /\ Forall2 (fun o s => let c := snd (active_at_time init l o) in
+                  192 * Qabs (time_of init l s - o) <= beat_len (bs_bpm c)
+                  /\ (time_on_gridb tbl init l o = true -> time_of init l s == o)
+                  /\ (0 <= s_m s)%Z /\ 0 <= s_b s /\ s_b s < bs_met c /\ s_met s = bs_met c) os ss
+    /\ Forall2 (fun o t => 192 * Qabs (t - o) <= beat_len (bs_bpm (snd (active_at_time init l o)))
+                           /\ (time_on_gridb tbl init l o = true -> t == o)) os ts.
+Proof. exact (snaps_roundtrip_b tbl C10_table_ok). Qed.
+
+(* position -> ms -> position: for on-grid positions qs (normalised under the metronome of the change active at them,
+   a table fraction of a beat after it) and os their times, TimingMap.snaps(os) returns qs, in query order *)
+Theorem C10_position_roundtrip : forall init l qs os, dom_posb tbl 0 init l qs os = true ->
+  exists bcos ss, from_bcs init l = Some bcos /\ tm_snaps tbl bcos os = Some ss
+    /\ Forall2 (fun q s => s_m s = s_m q /\ s_b s == s_b q /\ s_met s == s_met q) qs ss.
+Proof. exact (snaps_of_offsets_b tbl C10_table_ok). Qed.
+
+(* Cumulative beats, constant metronome M (dom_beatsb = dom_snapsb + one metronome).  TimingMap.beats succeeds and
+   returns, in query order, for each query time the cumulative beat  measure * M + beat  (abs_beat) of the position
+   TimingMap.snaps assigns to it; that number is within 1/192 of the integral of bpm/60000 over [init, o] (beats_at) and
+   equal to it when o is on the snap grid; so differences of cumulative beats of on-grid times are EXACTLY the beat
+   distance obtained by integrating bpm/60000 over time; and cumulative beats are monotone in time, for all query
+   times, on the grid or not. *)
+Theorem C10_beats : forall init l os, dom_beatsb tbl init l os = true ->
+  exists bcos ss bs, from_bcs init l = Some bcos
+    /\ tm_snaps tbl bcos os = Some ss /\ tm_beats tbl bcos os = Some bs
+    /\ Forall2 (fun s b => b == abs_beat s) ss bs
+    /\ Forall2 (fun o b => 192 * Qabs (b - beats_at init l o) <= 1
+                           /\ (time_on_gridb tbl init l o = true -> b == beats_at init l o)) os bs
+    /\ (forall o1 b1 o2 b2, In (o1, b1) (combine os bs) -> In (o2, b2) (combine os bs) ->
+          time_on_gridb tbl init l o1 = true -> time_on_gridb tbl init l o2 = true ->
+          b2 - b1 == beats_at init l o2 - beats_at init l o1)
+    /\ (forall o1 b1 o2 b2, In (o1, b1) (combine os bs) -> In (o2, b2) (combine os bs) -> o1 <= o2 -> b1 <= b2).
+Proof. exact (beats_b tbl C10_table_ok). Qed.
+
+(* ... in particular the cumulative beats of the times of on-grid positions are measure * M + beat of those positions
+   (this is the form the correspondence runner checks on the implementation's output) *)
+Theorem C10_beats_of_positions : forall init l qs os, dom_beats_posb tbl 0 init l qs os = true ->
+  exists bcos bs, from_bcs init l = Some bcos /\ tm_beats tbl bcos os = Some bs
+                  /\ Forall2 (fun q b => b == abs_beat q) qs bs.
+Proof. exact (beats_positions_b tbl C10_table_ok). Qed.
+
+(* Tempo changes handed over in ANY ORDER (TimingMap.from_bpm_changes_offset / BpmList.to_timing_map: the engine sorts by
+   offset).  A permutation of millisecond tempo changes with pairwise distinct offsets is the same timing map for
+   offsets, snaps and beats ... *)
+Theorem C10_any_order : forall bcos bcos', Permutation bcos' bcos -> distinct_offsb bcos = true ->
+  (forall qs, tm_offsets tbl bcos' qs = tm_offsets tbl bcos qs)
+  /\ (forall os, tm_snaps tbl bcos' os = tm_snaps tbl bcos os)
+  /\ (forall os, tm_beats tbl bcos' os = tm_beats tbl bcos os).
+Proof. exact (any_order_b tbl). Qed.
+
+(* ... and for a script on the grid the map built from ANY permutation of its millisecond changes converts positions by
+   the same piecewise-linear integration *)
+Theorem C10_any_order_on_grid : forall init l qs, domainb tbl l qs = true ->
+  exists bcos, from_bcs init l = Some bcos /\
+    forall bcos', Permutation bcos' bcos ->
+      exists res, tm_offsets tbl bcos' qs = Some res /\ Forall2 (fun q r => r == time_of init l q) qs res.
+Proof. exact (any_order_on_grid_b tbl C10_table_ok). Qed.
+
+(* non-vacuity: four tempo changes with metronomes 4 and 3, negative initial offset, queries unsorted with duplicates,
+   exactly on changes, on the grid and off the grid *)
+Example C10_ms_roundtrip_example :
+  let l := [mkBcs 120 4 (mkSnap 0 0 4); mkBcs 175 4 (mkSnap 1 (3#2) 4); mkBcs 90 3 (mkSnap 3 0 3); mkBcs 200 3 (mkSnap 3 (7#3) 3)] in
+  let os := [5000; -1000; 1750; 2001; 1751; 5000; (27850#7) + 1; -(1999#2)] in
+  dom_snapsb tbl (-1000) l os = true
+  /\ map (time_on_gridb tbl (-1000) l) os = [false; true; true; false; false; false; false; false].
+Proof. vm_compute. split; reflexivity. Qed.
+
+Example C10_beats_example :
+  let l := [mkBcs 120 4 (mkSnap 0 0 4); mkBcs 240 4 (mkSnap 2 (1#2) 4); mkBcs 60 4 (mkSnap 5 3 4)] in
+  let os := [7250; 500; 4750; 501; 500; 4875; 9375] in
+  dom_beatsb tbl 500 l os = true
+  /\ map (time_on_gridb tbl 500 l) os = [true; true; true; false; true; true; true]
+  /\ match from_bcs 500 l with Some b => tm_beats tbl b os | None => None end
+     = Some [37 # 2; 0; 17 # 2; 0; 0; 9; 24].
+Proof. vm_compute. repeat split; reflexivity. Qed.
+
+Example C10_positions_example :
+  let l := [mkBcs 120 4 (mkSnap 0 0 4); mkBcs 240 4 (mkSnap 2 (1#2) 4); mkBcs 60 4 (mkSnap 5 3 4)] in
+  let qs := [mkSnap 5 3 4; mkSnap 0 0 4; mkSnap 2 (1#2) 4; mkSnap 6 (1#3) 4; mkSnap 1 (7#2) 4; mkSnap 0 0 4] in
+  dom_beats_posb tbl 0 500 l qs (map (time_of 500 l) qs) = true.
+Proof. vm_compute. reflexivity. Qed.
+
+Example C10_any_order_example :
+  let a := mkBco 240 3 3000 in let b := mkBco 120 3 (-1000) in let c := mkBco 60 3 500 in
+  distinct_offsb [b; c; a] = true /\ Permutation [a; b; c] [b; c; a].
+Proof. split; [vm_compute; reflexivity|]. apply (Permutation_cons_append [_; _]). Qed.
